@@ -19,7 +19,7 @@ ID = 'C03'
 LEVEL = 'exploration'
 RULE = ("dies: all valid region sets of size <=2 (kinds '#', 'dsp', fixed) on a 3x3-cell grid, families HALF and DEC1, optionally refined "
         "(split_refinable_regions / initial_grid); netlists: the fixed modules the die dictates + every set of <=2 movable modules from 20 variants "
-        "(5 centre-only squares incl. irrational side and sticking out, 12 soft rectangle shapes incl. two-rectangle, out-of-die and 1e-6 near misses of a cell boundary, 5 hard shapes), also after the movable module was relocated in place following a first allocation; both "
+        "(5 centre-only squares incl. irrational side and sticking out, 12 soft rectangle shapes incl. two-rectangle, out-of-die and 1e-6 near misses of a cell boundary, 5 hard shapes), also after the movable module was relocated in place following a first allocation, after its rectangles were re-assigned through Netlist.assign_rectangles and after a fixed module was released (is_fixed = False) or released and fixed again before the die was built; both "
         "include-zero settings where defined; a die of 29999.1 units with <=1 region and a 1 x 1 module next to a die-sized one. Non-trivial = cases in which at least one movable module partially covers at least one cell "
         "(0 < ratio < 1); distinct by construction.")
 ASSUMPTIONS = ["ratios compared with 1e-9; a module is expected to be listed iff its exact overlap with the cell is positive; "
@@ -108,6 +108,9 @@ def shards(tier):
         out.append(dict(fam='HALF', moved=True, lo=lo, hi=min(d1, lo + 6)))
     for lo in range(0, d1, 6):
         out.append(dict(fam='BIGU', unit=True, lo=lo, hi=min(d1, lo + 6)))
+    for fam in ('HALF', 'DEC1'):
+        for lo in range(0, d1, 12):
+            out.append(dict(fam=fam, hist=True, lo=lo, hi=min(d1, lo + 12)))
     return out
 
 
@@ -171,7 +174,32 @@ def build(case):
         mods['M0_only'] = {'area': num(u * u), 'center': [num(u * F(3, 2)), num(u * F(3, 2))]}
         model['M0_only'] = dict(kind='soft', rects=None, square=(float(u * F(3, 2)), float(u * F(3, 2)), float(u * u)))
     netlist = Netlist({'Modules': mods, 'Nets': []})
-    die = Die(tree, netlist)
+    hist = case.get('hist') or ''
+    if 'assign' in hist:
+        # the rectangles of the movable modules are (re)assigned through the netlist's own API, as the tools do after a
+        # floorplanning step, before the die of the design is built
+        netlist.assign_rectangles({mn: list(md_['rectangles']) for mn, md_ in mods.items()
+                                   if 'rectangles' in md_ and not md_.get('fixed')})
+    if 'release' in hist:
+        # a module read as fixed is released (it becomes an ordinary hard module) before the die is built
+        for mn in list(model):
+            if model[mn]['kind'] == 'fixed':
+                netlist.get_module(mn).is_fixed = False
+                model[mn] = dict(kind='hard', rects=model[mn]['rects'])
+    if 'refix' in hist:
+        # ... and a released module that is fixed again is a fixed module
+        for mn in list(model):
+            if mn.startswith('F'):
+                netlist.get_module(mn).is_fixed = True
+                model[mn] = dict(kind='fixed', rects=model[mn]['rects'])
+    if hist:
+        # the die of a netlist that went through these steps is as valid as before them: a rejection is the library's doing
+        try:
+            die = Die(tree, netlist)
+        except Exception as e:  # noqa
+            raise FirstAllocationFailed(f'Die() after {hist}: {type(e).__name__}: {e}')
+    else:
+        die = Die(tree, netlist)
     mv = case.get('move')
     if mv:
         # a movable module that was relocated IN PLACE after loading (what tools/spectral, tools/glbfloor and
@@ -223,7 +251,7 @@ def overlap_f(c, r):
 
 def check_case(case, res):
     from frame.allocation.allocation import create_initial_allocation
-    attrs = dict(fam=case['fam'], zero=case['zero'], pre=bool(case.get('pre')), nmods=len(case['mods']), moved=bool(case.get('move')))
+    attrs = dict(fam=case['fam'], zero=case['zero'], pre=bool(case.get('pre')), nmods=len(case['mods']), moved=bool(case.get('move')), hist=case.get('hist'))
     try:
         die, netlist, model, scale = build(case)
     except FirstAllocationFailed as e:
@@ -401,6 +429,16 @@ def run_shard(shard, tier, res):
                     reset_frame_state()
                     check_case(dict(fam=fam, die=[[list(r), k] for r, k in items], mods=list(ms), zero=False, move=mv), res)
         res.samples.append(dict(fam=fam, die=[], mods=[len(VARIANTS) - 1], zero=False, move=[1, 0]))
+        return
+    if shard.get('hist'):
+        withrects = [i for i, (n, sp) in enumerate(VARIANTS) if sp['rects']]
+        for items in die_descriptions(1)[shard['lo']:shard['hi']]:
+            has_fixed = any(k == 'fixed' for _, k in items)
+            for ms in [()] + [(i,) for i in withrects]:
+                for h in (['assign'] if ms else []) + (['release', 'release+refix'] + (['assign+release'] if ms else []) if has_fixed else []):
+                    reset_frame_state()
+                    check_case(dict(fam=fam, die=[[list(r), k] for r, k in items], mods=list(ms), zero=False, hist=h), res)
+        res.samples.append(dict(fam=fam, die=[[[0, 0, 1, 1], 'fixed']], mods=[withrects[-1]], zero=False, hist='assign+release'))
         return
     if shard.get('unit'):
         vi = {n: i for i, (n, _) in enumerate(VARIANTS)}
